@@ -1,0 +1,13 @@
+//go:build !verif
+
+package swap
+
+import "time"
+
+// verifPayTiming and verifNoBackoff are identity hooks; the verification
+// build (tag verif) replaces them with harness-controlled versions.
+func verifPayTiming(interval, retryTime time.Duration) (time.Duration, time.Duration) {
+	return interval, retryTime
+}
+
+func verifNoBackoff() bool { return false }
